@@ -352,9 +352,9 @@ var timeBoundaries = func() []uint64 {
 		122192928000000000, 122192928000000000 - 1, 122192928000000000 + 1,
 		122192928000000000 - 92233720368547758, 122192928000000000 - 92233720368547759, // 1677-09-21 int64-ns limit
 		122192928000000000 + 92233720368547758, 122192928000000000 + 92233720368547759, // 2262-04-11
-		5748192000000000,                               // 1601-01-01
+		5748192000000000, // 1601-01-01
 		122192928000000000 - 92233720368547758 + 10000, // 1677
-		122192928000000000 + 92233720368547758 + 3e14, // 2263
+		122192928000000000 + 92233720368547758 + 3e14,  // 2263
 	}
 	for k := 0; k < 60; k++ {
 		out = append(out, 1<<uint(k))
@@ -804,7 +804,7 @@ func values(lo, hi int, worker int) {
 
 func main() {
 	r = mon.Start("C13", "exploration")
-	r.Rule("Every 128-bit value of the boundary set (all-zero, all-ones, the 128 single-bit patterns and their complements, each octet 0xFF alone, counting patterns, published UUIDs) and seeded random values, through: generic UUID (binary and text, three letter cases), the v1/v2/v8 parsers (with the value's own version nibble for the accept/refuse decision and with the nibble forced for the round trip), GUID raw bytes and the five text formats N/D/B/P/X in four letter cases via FromString and the direct parser; plus field assignments (v1 time x clock sequence x node incl. via SetTime, v2, v8, GUID) at width boundaries and random. Non-trivial: each distinct boundary (entry family, value) pair, and each distinct random 128-bit value / v1 field tuple counted once (it passes through all families); all values except all-zero have high bits set in some field.")
+	r.Rule("Every 128-bit value of the boundary set (all-zero, all-ones, the 128 single-bit patterns and their complements, each octet 0xFF alone, counting patterns, published UUIDs) and seeded random values, through: generic UUID (binary and text, three letter cases), the v1/v2/v8 parsers (with the value's own version nibble for the accept/refuse decision and with the nibble forced for the round trip), GUID raw bytes and the five text formats N/D/B/P/X in four letter cases via FromString and the direct parser; plus field assignments (v1 time x clock sequence x node incl. via SetTime, v2, v8, GUID) at width boundaries and random. Non-trivial: each distinct boundary (entry family, value) pair, and each distinct random 128-bit value / v1 field tuple counted once (it passes through all families); all values except all-zero have high bits set in some field. State monitors (state.go): one parse target per type reused over a chain of boundary and random values (all-ones before all-zero, each single-bit value after its complement, refused inputs in between) and compared with a fresh target; caller buffers overwritten after parsing; fields assigned directly or through setters and formatted with no call in between; returned slices held in a ring of 64 and compared again later. Each chain element (value, predecessor) counts once.")
 	r.Assume(
 		"uuid.UUID's Variant is the whole high nibble of octet 8 and Data the remaining 30 nibbles in order (the library's own container; judged for losslessness and against a nibble-level reference)",
 		"RFC 4122 field extraction (60-bit timestamp, 14-bit clock sequence, node) is demanded of UUIDv1 for variant-10x values; for other variants the clock sequence width is undefined and either reading is accepted",
@@ -838,6 +838,8 @@ func main() {
 	var wg sync.WaitGroup
 	wg.Add(1)
 	go func() { defer wg.Done(); fieldAssignments() }()
+	wg.Add(1)
+	go func() { defer wg.Done(); stateMonitors() }() // state.go: held outputs, input scribble, receiver reuse, stale fields
 	n := r.Pick(50000, 1500000)
 	workers := 16
 	for w := 0; w < workers; w++ {
